@@ -42,15 +42,15 @@ type Judgement struct {
 // Agglayer is the model Agglayer of DESIGN §5.5. It accepts every submission and records a
 // judgement whenever a submission breaks the protocol (the oracle of C02 / C13).
 type Agglayer struct {
-	Hist      *History
-	StartLER  common.Hash
-	Entries   []*Entry
-	FailNext  bool
-	FailCall  int // n > 0: the n-th next call fails with a transport error (no effect); counts down
-	Judged    []Judgement
-	Calls     map[string]int
-	OnCall    func(method string) // observer (used to bound VerifInit)
-	Trace     func(format string, args ...any)
+	Hist     *History
+	StartLER common.Hash
+	Entries  []*Entry
+	FailNext bool
+	FailCall int // n > 0: the n-th next call fails with a transport error (no effect); counts down
+	Judged   []Judgement
+	Calls    map[string]int
+	OnCall   func(method string) // observer (used to bound VerifInit)
+	Trace    func(format string, args ...any)
 	// OmitPrevLER: the headers the service returns do not carry prev_local_exit_root (the field is optional in the API)
 	OmitPrevLER bool
 	submitted   int
